@@ -123,6 +123,118 @@ pub fn path_counters() -> BTreeMap<String, u64> {
 }
 
 // ---------------------------------------------------------------------------------------------
+// guard: every in-process pipeline run is logged and watched by the stuck-state detector, so a
+// run that can no longer make progress (a deadlock, or a worker thread that died) ends the
+// process with a crash record instead of hanging the check
+// ---------------------------------------------------------------------------------------------
+
+static GUARD_WORKERS: AtomicU64 = AtomicU64::new(0); // 0 = no run in flight
+static GUARD_THREAD: std::sync::Once = std::sync::Once::new();
+static CASE: Mutex<(u64, String)> = Mutex::new((0, String::new()));
+static CRASH_PATH: Mutex<Option<String>> = Mutex::new(None);
+static WORKER_PANIC: Mutex<Option<String>> = Mutex::new(None);
+/// Called with (description, log) when the detector fires; must not return
+pub static STUCK_HANDLER: Mutex<Option<fn(&str, &[Ev])>> = Mutex::new(None);
+
+pub fn set_crash_path(p: Option<String>) {
+    *CRASH_PATH.lock().unwrap() = p;
+}
+
+/// Tell the guard which case is running (index in the shard's case space + description)
+pub fn set_case(idx: u64, ctx: String) {
+    *CASE.lock().unwrap() = (idx, ctx);
+}
+
+pub fn note_worker_panic(msg: String) {
+    let mut g = WORKER_PANIC.lock().unwrap();
+    if g.is_none() {
+        *g = Some(msg);
+    }
+}
+
+pub fn worker_panic() -> Option<String> {
+    WORKER_PANIC.lock().unwrap().clone()
+}
+
+pub fn run_in_flight() -> bool {
+    GUARD_WORKERS.load(Ordering::SeqCst) != 0
+}
+
+/// Write a crash record next to the shard's report and leave the process
+pub fn crash_exit(kind: &str, msg: &str, code: i32) -> ! {
+    let (idx, ctx) = CASE.lock().map(|c| c.clone()).unwrap_or((0, String::new()));
+    let rec = vcommon::jobj(&[
+        ("kind", vcommon::jstr(kind)),
+        ("case_index", idx.to_string()),
+        ("case", if ctx.is_empty() { "null".to_string() } else { ctx }),
+        ("message", vcommon::jstr(&vcommon::clip(msg, 1500))),
+    ]);
+    if let Ok(p) = CRASH_PATH.lock() {
+        if let Some(p) = p.as_ref() {
+            let _ = std::fs::write(p, &rec);
+        }
+    }
+    eprintln!("VH-CRASH {}", rec);
+    std::process::exit(code);
+}
+
+fn guard_loop() {
+    let mut last_len = usize::MAX;
+    let mut stable_since: Option<std::time::Instant> = None;
+    loop {
+        std::thread::sleep(std::time::Duration::from_millis(100));
+        let n = GUARD_WORKERS.load(Ordering::SeqCst) as usize;
+        if n == 0 {
+            last_len = usize::MAX;
+            stable_since = None;
+            continue;
+        }
+        let len = log_len();
+        if len != last_len {
+            last_len = len;
+            stable_since = None;
+            continue;
+        }
+        let log = log_copy_from(0);
+        let d = derive(&log);
+        match is_stuck(&d, n) {
+            None => stable_since = None,
+            Some(desc) => {
+                let since = *stable_since.get_or_insert_with(std::time::Instant::now);
+                if since.elapsed() >= std::time::Duration::from_millis(4000) && log_len() == len && GUARD_WORKERS.load(Ordering::SeqCst) as usize == n {
+                    let desc = match worker_panic() {
+                        Some(p) => format!("{} | a pipeline thread panicked: {}", desc, p),
+                        None => desc,
+                    };
+                    let h = *STUCK_HANDLER.lock().unwrap();
+                    match h {
+                        Some(f) => f(&desc, &log),
+                        None => crash_exit("stuck", &desc, 102),
+                    }
+                    // a handler that returns: fall back to leaving the process
+                    crash_exit("stuck", &desc, 102);
+                }
+            }
+        }
+    }
+}
+
+/// Run one pipeline execution with the event log on and the stuck-state detector armed.
+/// Returns the closure's result and the event log of the run.
+pub fn run_guarded<T>(n_workers: usize, f: impl FnOnce() -> T) -> (T, Vec<Ev>) {
+    GUARD_THREAD.call_once(|| {
+        std::thread::Builder::new().name("vh-guard".into()).spawn(guard_loop).expect("guard thread");
+    });
+    *WORKER_PANIC.lock().unwrap() = None;
+    log_start();
+    GUARD_WORKERS.store(n_workers.max(1) as u64, Ordering::SeqCst);
+    let r = f();
+    GUARD_WORKERS.store(0, Ordering::SeqCst);
+    let log = log_stop();
+    (r, log)
+}
+
+// ---------------------------------------------------------------------------------------------
 // perturbation
 // ---------------------------------------------------------------------------------------------
 
